@@ -30,7 +30,7 @@ ASSUMPTIONS = [
 ]
 LEVEL_SCOPE = ("Decides the listed clauses for every order type (piece) over real arithmetic, reporting only definite disagreements; floating-point "
                "rounding and the clauses listed as undecided are not decided.")
-FLOORS = {"F": 16, "L1": 16, "L2": 16, "L3": 16, "L4": 7, "L5": 16, "L6": 15, "V1": 16}
+FLOORS = {"K1": 16, "F": 16, "L1": 16, "L2": 16, "L3": 16, "L4": 7, "L5": 16, "L6": 15, "V1": 16}
 
 # documented formulas: cases in order (first match wins), over a, b
 NORMS: dict[str, dict] = {
@@ -51,7 +51,9 @@ NORMS: dict[str, dict] = {
     "NormalizedSum": {"kind": "S", "cases": [(None, "(a + b) / max(1, a + b)")], "not_associative": True},
     "UnboundedSum": {"kind": "S", "cases": [(None, "a + b")], "unbounded": True},
 }
-GRID = [Fraction(0), Fraction(1, 4), Fraction(1, 2), Fraction(3, 4), Fraction(1)]
+# the quarter grid, plus points closer to 0 and 1 than the library's comparison tolerance (so that an order type "close to 1 but
+# not 1" exists whenever a kernel compares with a tolerance)
+GRID = [Fraction(0), Fraction(1, 4096), Fraction(1, 4), Fraction(1, 2), Fraction(3, 4), Fraction(4095, 4096), Fraction(1)]
 ZERO_T, ONE_T = ("const", 0), ("const", 1)
 
 
@@ -143,6 +145,10 @@ def run(check: Check) -> None:
         if fn is None:
             raise AnalysisError(f"anchor vanished: {name}.compute")
         check.analysed(fn)
+        from .common import kernel_purity
+
+        if not kernel_purity(check, fn, "K1", f"{name}.compute/pure", set()):
+            continue
         fns[name] = fn
         a_, b_ = ("param", fn.params[1].name), ("param", fn.params[2].name)
         code[name] = substitute(flatten(p, return_term(p, c, "compute")), {a_: A, b_: B})
@@ -160,6 +166,8 @@ def run(check: Check) -> None:
                       exhaustive=True, cases=total)
 
     for name, spec in NORMS.items():
+        if name not in fns or (spec.get("dual") and spec["dual"] not in fns):
+            continue
         fn = fns[name]
         t = code[name]
         cases = [(spec_term(cnd, names) if cnd else None, spec_term(val, names)) for cnd, val in spec["cases"]]
